@@ -24,8 +24,12 @@ from core import Driver, Failure, nl, q
 
 ID = "C16"
 from genf import translate  # noqa: E402,F401  (regenerates lean/PyribsGen/Formulas.lean from the tree under check)
-PROOF_MODULES = ["PyribsProofs.C16", "PyribsGen.Formulas", "PyribsProofs.GenFCtl"]
+PROOF_MODULES = ["PyribsProofs.C16", "PyribsGen.Formulas", "PyribsProofs.GenFCtl", "PyribsGen.Control",
+                 "PyribsProofs.GenFLoop"]
 THEOREMS = [
+    "Pyribs.GenFProofs.bandit_tell_loop_from_source",
+    "Pyribs.GenFProofs.bandit_tell_loop_inactive",
+    "Pyribs.GenFProofs.bandit_tell_init_from_source",
     # the UCB1 score of BanditScheduler.ask, regenerated from the source
     "Pyribs.GenFProofs.ucb1_matches",
     "Pyribs.GenFProofs.ucb_mono_success",
